@@ -281,7 +281,28 @@ func (e *Exec) callStatic(fr *Frame, st *BState, x *ssa.Call, f *ssa.Function, a
 	if tup, ok := x.Type().(*types.Tuple); ok && tup.Len() == 0 {
 		return &TupleV{}
 	}
-	return e.freshSV(x.Type(), "call."+f.Name(), st.reach, false)
+	r := e.freshSV(x.Type(), "call."+f.Name(), st.reach, false)
+	if !inRepo {
+		// abstracted library functions are visible to contracts the way interface methods are: calls(Name) counts
+		// them, lastres(Name) is the (final) result of the most recent one
+		cn := "$calls." + f.Name()
+		old := intLit(0)
+		if v, ok := st.ghost[cn]; ok {
+			old = scal(v)
+		}
+		st.ghost[cn] = intSV(add(old, intLit(1)))
+		ghostTypes[cn] = types.Typ[types.Int]
+		if tup, ok := x.Type().(*types.Tuple); ok {
+			if tv, ok := r.(*TupleV); ok && len(tv.Elems) == tup.Len() {
+				st.ghost["$lastres."+f.Name()] = tv.Elems[tup.Len()-1]
+				ghostTypes["$lastres."+f.Name()] = tup.At(tup.Len() - 1).Type()
+			}
+		} else {
+			st.ghost["$lastres."+f.Name()] = r
+			ghostTypes["$lastres."+f.Name()] = x.Type()
+		}
+	}
+	return r
 }
 
 // havocPointees: a library function without a contract may write through the pointers it is given (json.Decode(&out),
@@ -489,6 +510,15 @@ func init() {
 			e.assume(implies(and(st.reach, not(eq(ea.Tag, intLit(0)))), app(SBool, "str.contains", errMsg(r), errMsg(ea))))
 		}
 		return r
+	}
+	// github.com/pkg/errors: Wrap / Wrapf / WithStack / WithMessage return nil exactly for a nil error (documented)
+	for _, n := range []string{"Wrap", "Wrapf", "WithStack", "WithMessage", "WithMessagef"} {
+		externs["github.com/pkg/errors."+n] = func(e *Exec, st *BState, x *ssa.Call, args []SV) SV {
+			r := e.freshSV(x.Type(), "errwrap", st.reach, false).(*IfaceV)
+			in := args[0].(*IfaceV)
+			e.assume(implies(st.reach, eq(eq(r.Tag, intLit(0)), eq(in.Tag, intLit(0)))))
+			return r
+		}
 	}
 	externs["fmt.Sprintf"] = func(e *Exec, st *BState, x *ssa.Call, args []SV) SV {
 		msg, _ := e.sprintfTerm(e.curFrame, st, x, args)
